@@ -189,6 +189,7 @@ func c04(c *Ctx) {
 	c04Churn(c)
 	c04RemoveDuringDispatch(c)
 	c04TwoNamesBackground(c)
+	c04BackgroundRemovers(c)
 }
 
 func orDash(s string) string {
@@ -621,6 +622,73 @@ func c04TwoNamesBackground(c *Ctx) {
 			}
 			c.SpecFail("spec", fmt.Sprintf("%d background handlers under each of two event names, %d lines of the two verbs alternating in one burst", per, events), "", strings.Join(diffs, " | "),
 				map[string]interface{}{"op": "two-names-background", "handlers_per_name": per, "events": events})
+		}
+	}
+}
+
+// c04BackgroundRemovers: "removing handlers from within a handler neither deadlocks nor disturbs" holds for background
+// handlers too: one that uses its own Remover while it runs, and two of the same event that remove each other, must all
+// come back from Remove, run once for that event, and never again.
+func c04BackgroundRemovers(c *Ctx) {
+	for round := 0; round < c.Pick(2, 6); round++ {
+		desc := "background handlers: one removes itself while running, two of the same event remove each other; then two more events"
+		c.Journal("C04 " + desc)
+		sess, err := newSession(nil, nil)
+		if err != nil {
+			c.Res.Inconclusive++
+			continue
+		}
+		var ran, back [3]int64
+		var rem [3]client.Remover
+		var ready sync.WaitGroup
+		ready.Add(1)
+		for i := 0; i < 3; i++ {
+			i := i
+			rem[i] = sess.conn.HandleBG("NOTICE", client.HandlerFunc(func(*client.Conn, *client.Line) {
+				ready.Wait()
+				atomic.AddInt64(&ran[i], 1)
+				switch i {
+				case 0:
+					rem[0].Remove()
+				case 1:
+					rem[2].Remove()
+				case 2:
+					rem[1].Remove()
+				}
+				atomic.AddInt64(&back[i], 1)
+			}))
+		}
+		var stable int64
+		sess.conn.HandleBG("notice", client.HandlerFunc(func(*client.Conn, *client.Line) { atomic.AddInt64(&stable, 1) }))
+		ready.Done()
+		for k := 0; k < 3; k++ {
+			sess.srv.SendLine(fmt.Sprintf(":n!u@h NOTICE me :ev%d", k))
+			sess.sync(5 * time.Second)
+			time.Sleep(5 * time.Millisecond)
+		}
+		ok := waitFor(func() bool {
+			for i := 0; i < 3; i++ {
+				if atomic.LoadInt64(&back[i]) < 1 {
+					return false
+				}
+			}
+			return atomic.LoadInt64(&stable) >= 3
+		}, 3*time.Second)
+		sess.close()
+		c.Res.Traces++
+		c.Res.Evaluations++
+		c.Dist("background-removers")
+		var diffs []string
+		for i := 0; i < 3; i++ {
+			if r, b := atomic.LoadInt64(&ran[i]), atomic.LoadInt64(&back[i]); r != 1 || b != 1 {
+				diffs = append(diffs, fmt.Sprintf("handler %d ran %d times (Spec: 1) and came back from Remove %d times (Spec: 1)", i, r, b))
+			}
+		}
+		if st := atomic.LoadInt64(&stable); st != 3 {
+			diffs = append(diffs, fmt.Sprintf("the handler nobody removed ran %d times for 3 events", st))
+		}
+		if !ok || len(diffs) > 0 {
+			c.SpecFail("spec", desc, "", strings.Join(diffs, " | "), map[string]interface{}{"op": "background-removers"})
 		}
 	}
 }
